@@ -82,17 +82,16 @@ func (w *worker) kindsAt(st state, di *docInfo) (kinds []string, k int) {
 	if !ok {
 		return nil, 0
 	}
-	reps := 1
-	if di.multiKey && hasFilter(st.targets) {
-		reps = 3
+	if orderCapable(di, st.targets) {
+		if varies, _ := w.repeated(di, xs, seqs, ofRepsShrink); varies {
+			return []string{objectFilter}, st.ex.K
+		}
 	}
 	try := func(ex execSpec) []string {
-		for i := 0; i < reps; i++ {
-			r := runExec(ex, di.text, ex.chunks(len(di.text)), xs)
-			w.evals++
-			if matchAny(seqs, &r) < 0 {
-				return classify(di, seqs[0], &r)
-			}
+		r := runExecData(ex, di.text, di.data, ex.chunks(len(di.text)), xs)
+		w.evals++
+		if matchAny(seqs, &r) < 0 {
+			return classify(di, seqs[0], &r)
 		}
 		return nil
 	}
@@ -123,14 +122,14 @@ func (w *worker) chunkDep(st state, di *docInfo) bool {
 	var first *result
 	var fex execSpec
 	for _, ex := range di.execList(2) {
-		r := runExec(ex, di.text, ex.chunks(len(di.text)), xs)
+		r := runExecData(ex.execSpec, di.text, di.data, ex.cks, xs)
 		w.evals++
 		if first == nil {
 			rr := r
-			first, fex = &rr, ex
+			first, fex = &rr, ex.execSpec
 			continue
 		}
-		if !sameObs(first, &r) && w.reproducible(fex, di, xs, first) && w.reproducible(ex, di, xs, &r) {
+		if !sameObs(first, &r) && w.reproducible(fex, di, xs, first) && w.reproducible(ex.execSpec, di, xs, &r) {
 			return true
 		}
 	}
